@@ -137,7 +137,7 @@ func checkC12(c E2ECase, st *Stats) error {
 	return err
 }
 
-var propC12 = Register(Prop[E2ECase]{ID: "C12", Name: "C12", Check: checkC12})
+var propC12 = Register(Prop[E2ECase]{ID: "C12", Name: "C12", Pending: true, Check: checkC12})
 
 func TestC12Rapid(t *testing.T) {
 	p := propC12
